@@ -55,6 +55,18 @@ def units(rng, tier):
                 k = rng.choice([2, 3, 3, 4, 5])
                 us.append(part_unit("cg", k, vals, rng, fmt=rng.choice(gen.FORMATS), out=rng.choice(["pst", "sums"]), cmp="value", family="cg-switches/" + fam,
                                     objective=o, flags=[(f >> i) & 1 for i in range(4)]))
+    # large values that differ only in their low digits: tolerance-based comparisons (of bin sums, of bounds) go wrong only here
+    for _ in range(500 if tier == "quick" else 6000):
+        vals, fam = gen.values(rng, nmax=8, family="scalednoise")
+        vals = vals[:8]
+        k = rng.choice([2, 2, 3, 3, 4])
+        a = rng.choice(["cg", "cg", "cg", "ckk", "snp"])
+        us.append(mk(rng, a, k, vals, fam, fmt="list" if rng.random() < 0.7 else None))
+        if rng.random() < 0.3:
+            # and tiny items next to huge ones
+            v2 = [rng.randint(10 ** 5, 10 ** 6) for _ in range(rng.randint(2, 3))] + [rng.randint(1, 5) for _ in range(rng.randint(1, 4))]
+            v2[1] = v2[0] + rng.randint(-2, 2)
+            us.append(mk(rng, "cg", rng.choice([2, 3]), v2, "huge+tiny", fmt="list"))
     for vals, k in HARD:
         for a in ("dp", "cg", "ckk", "snp", "rnp", "ilp"):
             v = vals[:6] if a == "dp" else vals
